@@ -396,7 +396,7 @@ pub fn run_case(c: &Case, out: &mut String, st: &mut Stats, snapshots: bool) -> 
                                 o.push(',');
                             }
                             n += 1;
-                            o.push_str(&rec_json(&rec, false, false));
+                            o.push_str(&rec_json(&rec, c.views, false));
                         }
                         o.push(']');
                         o
